@@ -55,13 +55,22 @@ def check_split(ctx, rule):
     f_split = repo.func('arguments._split_command')
     # ---- C19.1 -------------------------------------------------------------------------------------------
     sp = paths_of(repo, f_split, unroll=1)
-    I = r'(?:<elem0 of range\(len\(args\)\)>|<elem0 of enumerate\(args\)>\[0\])'
-    W = r'(?:args\[%s\]|<elem0 of enumerate\(args\)>\[1\])' % I
+    I = 'I'
+    W = r'args\[I\]'
+
+    def cI(t):
+        """position and word of the (first) iteration in one spelling: the position is I, the word is args[I] - whether the loop
+        runs over range(len(args)) or over enumerate(args)"""
+        t = t.replace('<elem0 of range(len(args))>', 'I')
+        t = re.sub(r'args\[:0\]', 'args[:I]', t)
+        t = re.sub(r'args\[(?:0 \+ 1|1):\]', 'args[I + 1:]', t)
+        t = t.replace('<elem0 of args>', 'args[I]').replace('args[0]', 'args[I]')
+        return t
     shapes = set()
     for p in sp:
         if p.outcome[0] != 'return':
             continue
-        t = norm(p.outcome[1])
+        t = cI(norm(p.outcome[1]))
         if t == "(args, '', [])":
             shapes.add('none')
             ctx.ok(rule, f_split.loc(), t, 'no marker: everything is ours')
@@ -84,7 +93,7 @@ def check_split(ctx, rule):
     # characters, the marker letter is its last letter and occurs nowhere before
     for p in sp:
         if p.outcome[0] == 'return' and '[:-1]]' in norm(p.outcome[1]):
-            facts = {re.sub(r'<elem0 of range\(len\(args\)\)>|<elem0 of enumerate\(args\)>\[0\]', 'I', a.text).replace('<elem0 of enumerate(args)>[1]', 'args[I]'): v for a, v in p.decisions}
+            facts = {cI(a.text): v for a, v in p.decisions}
             need = {'_starts_with_single_dash(<elem0 of <elem0 of commands>>)': True, '2 < len(args[I])': True, '_starts_with_single_dash(args[I])': True,
                     '_strip_dashes(<elem0 of <elem0 of commands>>) in args[I][:-1]': False, 'args[I].endswith(_strip_dashes(<elem0 of <elem0 of commands>>))': True}
             ctx.check(all(facts.get(k) == v for k, v in need.items()), rule, 'split:cluster-conditions', f_split.loc(),
@@ -115,7 +124,7 @@ def check_split(ctx, rule):
               'the loop over positions is the outermost one, so the first marker position wins', 'outermost loop is %s' % [norm(t_.iter) for t_ in tops])
     # a return inside the loops happens at the first hit: every Return inside the loop nest is unconditional once its test matched
     # exact-match test compares the whole word with the alias
-    exact = [a.text for p in sp for a, v in p.decisions if re.match(r'^.+ == %s$|^%s == .+$' % (W, W), a.text)]
+    exact = [a.text for p in sp for a, v in p.decisions if re.match(r'^.+ == %s$|^%s == .+$' % (W, W), cI(a.text))]
     ctx.check(bool(exact), rule, 'split:exact-word-test', f_split.loc(), 'a marker on its own is recognised by comparing the whole word')
 
 
